@@ -48,9 +48,11 @@ def _registry(kind: str, which: str = 'base'):
     return reg
 
 
-def get_app(integration: str, status: str, base: str, codec: str = 'default'):
+def get_app(integration: str, status: str, base: str, codec: str = 'default', prefix_style: str = 'plain'):
     """returns (post(path_kind, body, content_type) -> (status, content_type, body bytes), dispatcher_for(path_kind))"""
-    key = (integration, status, base, codec, os.getpid())
+    key = (integration, status, base, codec, prefix_style, os.getpid())
+    # the extra endpoint is registered as '/sub' or as '/sub/' (both are documented to serve <base>/sub)
+    reg_prefix = PREFIX + ('/' if prefix_style == 'trailing-slash' else '')
     if key in _APPS:
         return _APPS[key]
     fn = STATUS_FUNCS[status]
@@ -63,7 +65,7 @@ def get_app(integration: str, status: str, base: str, codec: str = 'default'):
         from pjrpc.server.integration import aiohttp as integ
         rpc = integ.Application(base, **kw)
         rpc.dispatcher.add_methods(_registry('async'))
-        sub = rpc.add_endpoint(PREFIX, **ckw)
+        sub = rpc.add_endpoint(reg_prefix, **ckw)
         sub.add_methods(_registry('async', 'sub'))
 
         async def start():
@@ -91,7 +93,7 @@ def get_app(integration: str, status: str, base: str, codec: str = 'default'):
         app = flask.Flask(f'c18_{status}_{len(_APPS)}')
         rpc = integ.JsonRPC(base or '/', **kw)
         rpc.dispatcher.add_methods(_registry('sync'))
-        sub = rpc.add_endpoint(PREFIX, **ckw)
+        sub = rpc.add_endpoint(reg_prefix, **ckw)
         sub.add_methods(_registry('sync', 'sub'))
         rpc.init_app(app)
         client = app.test_client()
